@@ -27,12 +27,16 @@ def run(tier, seed, replay=None):
         return rep.finish()
     rng = random.Random(seed * 7919 + 5)
     g = PlanGen(rng)
-    nbase, limit = (14, 24) if tier == "quick" else (250, 60)
+    nbase, limit = (20, 24) if tier == "quick" else (300, 60)
     bases = []
     while len(bases) < nbase:
         c = rng.random()
-        if c < 0.25:
+        if c < 0.2:
             p, _ = g.overlap()
+        elif c < 0.45:
+            p = g.lattice()
+        elif c < 0.6:
+            p = g.unsized_plan()
         else:
             p = g.basic(nfam=rng.choice([1, 1, 2]), max_members=rng.choice([2, 3, 3]))
         if 2 <= len(p.blocks()) <= 6:
